@@ -231,6 +231,8 @@ func (w *Writer) Close() {
 }
 
 func (w *Writer) receive(pck *Packet, reader *Reader) bool {
+	defer verifReceive(w, reader, pck)()
+
 	w.mu.Lock()
 	defer w.mu.Unlock()
 
